@@ -14,7 +14,7 @@ RULE = ("Hypothesis generates a valid model (general generator plus non-interact
         "z, tau), chi (frequency tables with/without purge, default compute(), empty list, on-demand), vertex with storage window, "
         "susceptibilities with the three subtraction overloads, ensemble averages, GF and 2PGF containers (fill/prepareAll/computeAll/"
         "evaluate).  The scenario runs in the ASan+UBSan build with all asserts enabled, twice with different allocator fill bytes (0x00 / "
-        "0xA5): any sanitizer report, Eigen bounds assertion, or fatal signal is a failure, and the two runs must give identical answers "
+        "0xFF, i.e. every uninitialised double is +0.0 in one run and a NaN in the other, so that it survives a multiplication by zero): any sanitizer report, Eigen bounds assertion, or fatal signal is a failure, and the two runs must give identical answers "
         "(otherwise uninitialised storage influenced a result).  Non-trivial: the scenario reaches G/chi/susceptibility computation for an "
         "operator pair with different indices, or an empty/default frequency list, or a model with a one-dimensional block.")
 ASSUMPTIONS = ["pomerol's own debug assertions (TermList::check_terms, Hermiticity of a block) are not UB: an abort from them is counted as class library-assert and not judged here (the library's release build compiles them out; values are judged by the other properties)",
@@ -201,7 +201,7 @@ def execute(case, ctx):
     if mdl.get("family"):
         classes.append("sparse-family")
     runs = []
-    for fill in ("0", "165"):
+    for fill in ("0", "255"):
         env = {"ASAN_OPTIONS": "detect_leaks=0:abort_on_error=1:handle_segv=1:malloc_fill_byte=%s:max_malloc_fill_size=268435456:detect_stack_use_after_return=0" % fill}
         run = ModelRun(ctx, mdl, q, san=True, timeout=300, extra_env=env, key="fill" + fill)
         if run.died():
